@@ -65,6 +65,18 @@ package client
 //@   at_call defaultClient.do assert [route] method == "DELETE" && path == sprintf("/pins%s", ipfspath.String()) && isnil(body)
 //@   ensures [success-means-sent] err == nil ==> reqN == old(reqN) + 1
 //@   modifies *
+// the pin-type filter of /allocations: every type the caller's mask includes is named in the query (an empty filter is
+// read by the server as "all")
+//@ extern strings.Join(elems, sep)
+//@   modifies nothing
+//@ func (c *defaultClient) Allocations
+//@   property C11
+//@   at_call strings.Join assert [every-type-the-filter-includes-is-named] filter != api.AllType ==> forall i int :: 0 <= i && i < len(types) && types[i]&filter > 0 ==> exists j int :: 0 <= j && j < len(elems) && elems[j] == pinTypeName(types[i])
+//@   at_call defaultClient.do assert [route] method == "GET" && path == sprintf("/allocations?filter=%s", f) && isnil(body)
+//@   ensures [one-request] reqN == old(reqN) + 1
+//@   loop 1 (range types)
+//@     invariant forall i int :: 0 <= i && i < idx1 && types[i]&filter > 0 ==> exists j int :: 0 <= j && j < len(strFilter) && strFilter[j] == pinTypeName(types[i])
+//@   modifies *
 //@ func (c *defaultClient) Allocation
 //@   property C11
 //@   at_call defaultClient.do assert [route] method == "GET" && path == sprintf("/allocations/%s", ci.String()) && isnil(body)
